@@ -168,7 +168,12 @@ def classify(diags, mp):
             if r2 is not None and r2.get("item") and r is not None and r2["item"] != r.get("item"):
                 rid = rid + "@" + r2["item"]
                 break
-        fails.append({"region": r, "rid": rid, "msg": msg, "line": line,
+        props = set(r["props"]) if r else set()
+        for s2 in spans:
+            r2 = region_of(mp, s2["line_start"])
+            if r2 is not None and r2.get("kind") in ("fn-body", "loop-clause"):
+                props |= set(r2["props"])
+        fails.append({"region": r, "rid": rid, "msg": msg, "line": line, "props": sorted(props),
                       "rendered": d.get("rendered", "")[:4000]})
     return fails, undec
 
@@ -298,9 +303,12 @@ def main():
             if rid == "spec:canary":
                 continue
             rg = fl[0]["region"]
-            if rg is None or not rg["props"]:
+            fprops = set()
+            for f in fl:
+                fprops |= set(f["props"])
+            if rg is None or not fprops:
                 untagged_fail.append((r["unit"], rid, fl[0]))
-            elif pid in rg["props"]:
+            elif pid in fprops:
                 failed.append((r["unit"], rid, fl[0]))
             else:
                 foreign_fail.append((r["unit"], rid))
